@@ -1802,9 +1802,12 @@ class EventType(VersionedOntologyElement, MutableMapping):
                     (e[property_name] for e in events if e[property_name] != set()), set()
                 )
             else:
-                # Merge strategy 'any', should not matter which
-                # value to pick, we pick the first one.
-                output_properties[property_name] = event_properties[property_name][0]
+                # Merge strategy 'match' or 'any'. For 'match' all events have the same
+                # object set. For 'any' it should not matter which object set we pick.
+                # We pick the complete object set of the first event that has one.
+                output_properties[property_name] = next(
+                    (e[property_name] for e in events if e[property_name] != set()), set()
+                )
 
         return events[0].copy().set_properties(output_properties).set_parents(parents)
 
